@@ -57,6 +57,21 @@ Theorem C12_api_agree :
 Proof. exact api_agree. Qed.
 Print Assumptions C12_api_agree.
 
+(* `valid_cols` demands a NON-EMPTY projection of existing columns.  For the empty projection the
+   statement is false of the code as it is (and of its faithful model): pa.concat_tables drops the row
+   count of column-less tables, so scan(columns=[]) returns no rows while scan_batches / iter_records
+   yield one {} per selected row.  Open finding, reported; not repaired (no small safe repair). *)
+Definition C12_api_agree_any_projection : Prop :=
+  forall (X : value -> value -> bool) (E : cexpr -> row -> bool) (PA : parg -> bool)
+         (sch : list Z) (ids : list (Z * Z)) (bounds : file -> list (Z * value) * list (Z * value))
+         (split : list row -> list (list row)) (v : bool) (cs : list Z) (flt : pyfilter) (files : list file),
+    (forall c, In c cs -> In c sch) -> (forall l, concat (split l) = l) ->
+    flat (scan_batches X E PA sch ids bounds split (Some cs) flt files) = scan_table X E PA sch ids bounds v (Some cs) flt files.
+
+Theorem C12_api_agree_empty_projection_refuted : ~ C12_api_agree_any_projection.
+Proof. exact api_agree_empty_projection_refuted. Qed.
+Print Assumptions C12_api_agree_empty_projection_refuted.
+
 (* ... and that common answer is the SQL one: project cols (filter sql (concat files)), whenever the
    filter is accepted, well shaped, and pyarrow does not refuse a row (pruning by the stored bounds
    included: C13). *)
@@ -177,7 +192,7 @@ Example C12_nonvacuous :
 Proof.
   eexists. eexists. split; [vm_compute; reflexivity|].
   split; [vm_compute; reflexivity|].
-  split; [simpl; intuition|].
+  split; [simpl; split; [discriminate|intuition]|].
   split; [repeat constructor; simpl; intuition discriminate|].
   split.
   - intros f r Hf Hr. simpl in Hf.
